@@ -425,6 +425,11 @@ func genRobust(c *ctx, emit func(ev)) {
 			call(fn, b, false)
 		}
 		call(fn, nil, false)
+		// every one-byte string a point / scalar / tag decoder treats specially (0x00 is SEC1's point at infinity)
+		for _, b := range []byte{0x00, 0x01, 0x02, 0x03, 0x04, 0x05, 0x06, 0x07, 0x30, 0x80, 0xff} {
+			call(fn, []byte{b}, false)
+			call(fn, []byte{b, 0x00}, false)
+		}
 		for i := 0; i < nRand; i++ {
 			n := r.Intn(2*len(honest) + 8)
 			if i%3 == 0 {
@@ -503,6 +508,18 @@ func genRobust(c *ctx, emit func(ev)) {
 		}
 	}
 
+	// rate-limited requests whose signature comes in another form: ASN.1 DER of (r, s), also with integers far too large
+	if len(w.a3.req) > 96 {
+		body, sig := w.a3.req[:len(w.a3.req)-96], w.a3.req[len(w.a3.req)-96:]
+		rr, ss := new(big.Int).SetBytes(sig[:48]), new(big.Int).SetBytes(sig[48:])
+		huge := new(big.Int).Lsh(big.NewInt(1), 400)
+		for _, pair := range [][2]*big.Int{{rr, ss}, {huge, ss}, {rr, huge}, {new(big.Int).Lsh(rr, 8*200), ss}, {big.NewInt(0), big.NewInt(0)}} {
+			der := derSig(pair[0], pair[1])
+			for _, fn := range []string{"t3.Evaluate", "attester.VerifyRequest", "attester.Session"} {
+				call(fn, append(append([]byte{}, body...), der...), false)
+			}
+		}
+	}
 	// rate-limited requests rebuilt around an encrypted part of every short length
 	for _, n := range []int{1, 2, 15, 16, 31, 32, 33, 47, 48, 49, 64} {
 		short := &type3.RateLimitedTokenRequest{RequestKey: w.a3reg.RequestKey, NameKeyID: w.a3reg.NameKeyID,
